@@ -6891,7 +6891,6 @@ func ruleADP13(c *Ctx) []Ob {
 	return o.list
 }
 
-
 // ---------------------------------------------------------------- NIL6
 
 // NIL6: what a call hands back next to an error goes into storage that outlives the
